@@ -647,6 +647,51 @@ RowWise(pipe) == \A i \in Idx(pipe) : pipe[i].op \in {"filter", "select", "deriv
 AllEmpty(st) == \A d \in Idx(st.W) : \A w \in st.W[d] : w.rows = <<>>
 OneWorld(st) == \A d \in Idx(st.W) : Cardinality(st.W[d]) = 1
 TheWorld(st, d) == CHOOSE w \in st.W[d] : TRUE
+-----------------------------------------------------------------------
+(* remove / intersect (book, page "Append"; both marked experimental).                       *)
+(* remove: "Removes rows that appear in another relation, like EXCEPT ALL. Duplicate rows    *)
+(* are removed one-for-one."  The book does not say whether a NULL equals a NULL here        *)
+(* (EXCEPT ALL: yes; the std definition, a left join on == over all columns: no): both are   *)
+(* admissible worlds.  intersect: the book gives the name only; std defines it as the inner  *)
+(* join on all columns (multiplicities multiply, NULL never matches), the name and the       *)
+(* compiler's INTERSECT ALL say minimum of the multiplicities with NULLs not distinct: both  *)
+(* are admissible worlds.  What order is in effect afterwards is left open (like a right     *)
+(* join); relations of different widths are given no meaning (unsup).                        *)
+RowEqv(lv, rv, nulleq) ==
+  \A i \in Idx(lv) : \/ (nulleq /\ lv[i].k = "null" /\ rv[i].k = "null")
+                     \/ IsTrue(Truth(Eq(lv[i], rv[i])))
+RECURSIVE SetOpRows(_, _, _, _)
+\* mode "diff": bag difference, one for one; mode "min": bag intersection
+SetOpRows(top, bot, nulleq, mode) ==
+  IF top = <<>> THEN <<>>
+  ELSE LET r    == Head(top)
+           ms   == SelectSeq([j \in Idx(bot) |-> j], LAMBDA j : RowEqv(r.v, bot[j].v, nulleq))
+           rest == IF ms = <<>> THEN bot ELSE SubSeq(bot, 1, ms[1] - 1) \o SubSeq(bot, ms[1] + 1, Len(bot))
+           keep == IF mode = "diff" THEN ms = <<>> ELSE ms # <<>>
+       IN (IF keep THEN << [r EXCEPT !.key = <<>>] >> ELSE <<>>) \o SetOpRows(Tail(top), rest, nulleq, mode)
+\* every top row once per matching bottom row (the inner join of the std definition)
+ProductRows(top, bot) ==
+  FlattenSeq([i \in Idx(top) |->
+     LET ms == SelectSeq([j \in Idx(bot) |-> j], LAMBDA j : RowEqv(top[i].v, bot[j].v, FALSE))
+     IN [m \in Idx(ms) |-> [top[i] EXCEPT !.key = <<>>]]])
+
+SetOpT(st, s, dbs, schema) ==
+  LET r0 == RunPipe(Fresh(st), s.with, dbs, schema)
+      worlds(trows, brows) ==
+        IF s.op = "remove"
+          THEN { SetOpRows(trows, brows, TRUE, "diff"), SetOpRows(trows, brows, FALSE, "diff") }
+          ELSE { SetOpRows(trows, brows, TRUE, "min"), ProductRows(trows, brows) }
+  IN
+  IF r0.status # "ok" THEN [st EXCEPT !.status = r0.status]
+  ELSE IF Len(r0.frame) # Len(st.frame) THEN Unsup(st)
+  ELSE [ st EXCEPT
+      !.dirs = <<>>,
+      !.osort = st.osort \/ st.dirs # <<>>,
+      !.loose = st.loose \/ r0.loose,
+      !.W = [d \in Idx(st.W) |->
+               UNION { { [ns |-> NsJoin(p[1].ns, p[2].ns), rows |-> rs] : rs \in worlds(p[1].rows, p[2].rows) }
+                       : p \in { q \in st.W[d] \X r0.W[d] : NsJoin(q[1].ns, q[2].ns) # "clash" } }] ]
+
 RECURSIVE LoopRounds(_, _, _, _, _, _)
 \* acc: per instance the rows gathered so far; result: [ok, acc, loose]
 LoopRounds(cur, acc, n, pipe, dbs, schema) ==
@@ -753,6 +798,7 @@ ApplyStep(st, s0, dbs, schema) ==
          [] s.op = "window"    -> Window(st, s, dbs, schema)
          [] s.op = "join"      -> Join(st, s, dbs, schema)
          [] s.op = "append"    -> AppendT(st, s, dbs, schema)
+         [] s.op \in {"remove", "intersect"} -> SetOpT(st, s, dbs, schema)
          [] s.op = "loop"      -> Loop(st, s, dbs, schema)
          \* scope-breaking steps (C10): a call with a surplus positional argument,
          \* an unknown named argument, a scalar where a relation is required or
